@@ -414,7 +414,22 @@ package lua
 //@ trusted threadRun [C06]
 //@ assume threadRun runs the coroutine body (arbitrary Lua code); recorded in the ghost call log with the thread's Parent and the current thread at the call
 //@ logged pre: L.Parent, L.G.CurrentThread
+// call discipline towards the resumer (what switchToParentThread, verified above, does when the body yields, returns or
+// fails): the resumer's activation is intact, and the success flag plus the transferred values sit above its old top
+//@ ensures  old(L.Parent) != nil ==> Inv_api(old(L.Parent)) && old(L.Parent).G == old(L.Parent.G) && old(L.Parent).currentFrame == old(L.Parent.currentFrame) && (old(L.Parent.currentFrame) != nil ==> old(L.Parent.currentFrame).Fn == old(L.Parent.currentFrame.Fn)) && base(old(L.Parent)) == old(base(L.Parent)) && top(old(L.Parent)) >= old(top(L.Parent)) + 1
+//@ ensures  L.stack == old(L.stack) && (old(L.stack) != nil && old($inv(L.stack)) ==> $inv(L.stack))
 //@ modifies everything
+
+// LState.Resume (Go API), verified from the call of threadRun onwards: the values delivered by the coroutine are collected
+// and the resumer's own stack is restored to what it was before the resume on EVERY outcome (ok, yield, error)
+//@ func (*LState).Resume [C06]
+//@ from@"top := ls.GetTop()" ls != nil && th != nil && th != ls && th.Parent == ls && Inv_api(ls) && ls.G != nil && (ls.currentFrame != nil ==> ls.currentFrame.Fn != nil) && th.stack != nil && $inv(th.stack)
+//@ let@"threadRun(th)" t0 = top(ls)
+//@ let@"threadRun(th)" b0 = base(ls)
+//@ ensures  "resumer-stack-restored": top(ls) == t0 && base(ls) == b0
+//@ ensures  "error-or-values": (result0 == ResumeError ==> result1 != nil) && (result0 != ResumeError ==> result1 == nil && len(result2) >= 1)
+//@ modifies everything
+//@ loop 3 invariant Inv_api(ls) && ls.G != nil && (ls.currentFrame != nil ==> ls.currentFrame.Fn != nil) && base(ls) == b0 && top(ls) >= t0 + 1 && idx >= top + 2 && top == t0 - b0 && offset(ret) == 0 && th.stack != nil
 
 //@ func coResume [C06]
 //@ requires Inv_gfn(L) && isTh(arg(L, 1)) && th(arg(L, 1)) != nil && L.G.CurrentThread != nil && th(arg(L, 1)).G == L.G
